@@ -165,16 +165,22 @@ def scen_key_in_child(ch, params, out):
     layout = ch.choose("layout", ["flat", "nested"])
     cu = ch.flag("convert_unicode")
     depth = ch.choose("depth", [1, 2])
+    role = ch.choose("key_is", ["field_of_the_child", "name_of_the_child"])
     kwargs = {"convert_unicode": cu}
     if fw in ("attrs", "dataclasses"):
         kwargs["meta"] = True
-    if not emitcheck.fold(key, cu):
+    if not emitcheck.fold(key, cu) or emitcheck.fold(key, cu) in {emitcheck.fold(k, cu) for k in ("plain", "v", "num", "mid", "child", "m")}:
         out.checked += 1
-        return
-    child = {key: 1, "plain": "s"}
-    data = [{"child": child, "id": 1}] if depth == 1 else [{"mid": {"child": child, "m": 2}, "id": 1}]
-    out.info = {"key": key, "framework": fw, "layout": layout, "convert_unicode": cu, "depth": depth}
-    ctx = lambda: f"key {key!r} in a child at depth {depth} {fw}/{layout} convert_unicode={cu}"
+        return      # empty label / folded-equal to a sibling key: outside the documented key domain
+    if role == "field_of_the_child":
+        child = {key: 1, "plain": "s"}
+        data = [{"child": child, "num": 1}] if depth == 1 else [{"mid": {"child": child, "m": 2}, "num": 1}]
+    else:
+        # the key names the child model (its class name is generated from the key) and is the field that refers to it
+        child = {"v": 1, "plain": "s"}
+        data = [{key: child, "num": 1}] if depth == 1 else [{"mid": {key: child, "m": 2}, "num": 1}]
+    out.info = {"key": key, "framework": fw, "layout": layout, "convert_unicode": cu, "depth": depth, "role": role}
+    ctx = lambda: f"key {key!r} as {role} at depth {depth} {fw}/{layout} convert_unicode={cu}"
     try:
         gen, reg, _ = pipeline.infer({"Root": data})
         text = pipeline.emit(reg, fw, layout, **kwargs)
@@ -185,7 +191,10 @@ def scen_key_in_child(ch, params, out):
     if em is None:
         return
     try:
-        cls = next((c for q, c in em.ld.classes.items() if q.split(".")[-1] == "Child"), None)
+        if role == "field_of_the_child":
+            cls = next((c for q, c in em.ld.classes.items() if q.split(".")[-1] == "Child"), None)
+        else:
+            cls = next((c for q, c in em.ld.classes.items() if q.split(".")[-1] == ("Root" if depth == 1 else "Mid")), None)
         if not out.check(cls is not None, "child_missing", lambda: f"({ctx()})\n{text}", "child_missing"):
             return
         table = em.table(cls)
